@@ -170,6 +170,9 @@ func vValidatedAC(maxFiles int, withDir bool, withProxy bool) {
 	if !withProxy {
 		vsym.Assert(vsym.Quiesce() == 0, "ac/C14-no-goroutine-left")
 		vsym.Assert(vmodel.FS.OpenCount == 0, "ac/C14-no-open-file")
+	} else {
+		// only the two permanent backend-check workers remain (blocked on their queue)
+		vsym.Assert(vsym.Quiesce() == 2, "ac/C14-request-leaves-no-goroutine-behind")
 	}
 	vsym.Assert(c.lru.ll.Len() == n && len(c.lru.cache) == n, "ac/index-unchanged")
 	vsym.Assert(c.lru.currentSize == st.cur0, "ac/C03-accounting-unchanged")
